@@ -61,3 +61,17 @@ CLAIMS["C14"] = {
     "note": "Only the gate, ordering and formula clauses are claimed; numeric validity of the split for all (alpha, n) is out of "
             "reach of this family and disclosed as observation O1.",
 }
+
+CLAIMS["C19"] = {
+    "technique": "def-use terms + CFG: the list returned by list_versions is read back as a term (page + recursive call, optional "
+                 "filters) and matched clause by clause; tuple pairing of version/buffer/future by def-use; fault handling by "
+                 "try/except shape and must-pass-through on the CFG",
+    "level": "Decides for every paging pattern, window and failure subset the protocol clauses visible in the code: page kept and "
+             "recursive result appended; recursion iff truncated, non-empty and oldest version of the page >= start (or start "
+             "unset); both markers from the same response and forwarded into the request; inclusive filters on the combined "
+             "list; None for an empty window, propagated to the client; every sample-th version requested; each frame stamped "
+             "with its own version's time in the handler's timezone; download errors caught without re-raise, task_done on both "
+             "paths. None of this code is executed by the suite.",
+    "note": "Trusted: the service lists newest-first with consistent markers (assumption of the property); s3transfer futures. "
+            "Calls are treated as expressions (identical call text = same value).",
+}
